@@ -140,7 +140,9 @@ class OsuMap(Map[OsuNoteList, OsuHitList, OsuHoldList, OsuBpmList], OsuMapMeta):
         """Changes the rate of the map"""
         osu = super(OsuMap, self.deepcopy()).rate(by)
         osu.samples.offset /= by
-        osu.preview_time /= by
+        if osu.preview_time >= 0:
+            # a negative preview time is the "no preview point" marker, not a time
+            osu.preview_time /= by
 
         return osu
 
